@@ -62,6 +62,7 @@ type runner struct {
 	pendCb      func(centrifuge.SubscribeReply, error)
 	brokerCalls []string
 	failNext    map[string]bool // thread -> the round trip it is parked in returns an error when released
+	positioned  bool            // the client-side subscription is positioned (Broker.History after AddPresence)
 	attrCS      string          // routing attribute of the client-side / server-side subscribe: "none", "fA", "fB"
 	attrSS      string
 }
@@ -129,6 +130,17 @@ func (b *faultBroker) PublishLeave(ch string, info *centrifuge.ClientInfo) error
 		}
 	}
 	return b.Inner.PublishLeave(ch, info)
+}
+
+// History: the stream-top read of a positioned client-side subscribe is a gate; a failing step answers a client
+// error (non-internal *centrifuge.Error): the subscribe command is answered with an error reply, no disconnect.
+func (b *faultBroker) History(ch string, opts centrifuge.HistoryOptions) ([]*centrifuge.Publication, centrifuge.StreamPosition, error) {
+	if r := b.w.runner(); r != nil && ch == r.ch {
+		if r.gate("BrokerHistory") {
+			return nil, centrifuge.StreamPosition{}, centrifuge.ErrorUnrecoverablePosition
+		}
+	}
+	return b.GateBroker.History(ch, opts)
 }
 
 type faultPresence struct {
@@ -352,7 +364,7 @@ func newWorker() (*worker, error) {
 // subReply: the OnSubscribe reply of the behaviour's client-side subscribe (attribute fB = a server tags filter set here;
 // fA = the client's own tags filter, sent in the subscribe request and allowed here)
 func (r *runner) subReply() centrifuge.SubscribeReply {
-	o := centrifuge.SubscribeOptions{EmitPresence: true, EmitJoinLeave: true, AllowTagsFilter: true, Source: srcCS}
+	o := centrifuge.SubscribeOptions{EmitPresence: true, EmitJoinLeave: true, AllowTagsFilter: true, Source: srcCS, EnablePositioning: r.positioned}
 	if r.attrCS == "fB" {
 		o.ServerTagsFilter = filterB
 	}
@@ -540,6 +552,8 @@ func gateOf(t, pc string) string {
 		return "BrokerSubscribe"
 	case "pres", "tkpres":
 		return "AddPresence"
+	case "hist":
+		return "BrokerHistory"
 	case "replied":
 		return "sub:replied"
 	case "committed":
@@ -569,6 +583,7 @@ func (w *worker) run(bi int, beh []map[string]any, res *vh.Result) {
 	r := &runner{w: w, ch: fmt.Sprintf("lc%d_%d", vh.Seed(), bi), async: vh.Bool(st0["async"]),
 		gids: map[uint64]string{}, expect: map[string]string{}, parked: map[string]string{}, threads: map[string]*thread{},
 		failNext: map[string]bool{}, attrCS: "none", attrSS: "none"}
+	r.positioned = vh.Bool(st0["positioned"])
 	if a := vh.Map(st0["attr"]); a != nil {
 		r.attrCS, r.attrSS = vh.Str(a["CS"]), vh.Str(a["SS"])
 	}
@@ -608,7 +623,7 @@ func (w *worker) run(bi int, beh []map[string]any, res *vh.Result) {
 	}
 	var steps []any
 	completed := 1
-	ops := vh.J(st0["ops"]) + fmt.Sprintf(" attr cs=%s ss=%s", r.attrCS, r.attrSS)
+	ops := vh.J(st0["ops"]) + fmt.Sprintf(" attr cs=%s ss=%s positioned=%v", r.attrCS, r.attrSS, r.positioned)
 	type pdrift struct {
 		what   string
 		replay any
